@@ -21,7 +21,7 @@ func init() {
 			if tier == "thorough" {
 				return 800000
 			}
-			return 30000
+			return 120000
 		},
 		Run:      runC13,
 		Required: []string{"same_origin_accepted", "cross_origin_refused", "real_server_cases"},
